@@ -61,7 +61,9 @@ static uint64_t rt_seed;
 #define C18_SCAN 32768
 #endif
 #define SCAN C18_SCAN /* bytes below the pad that are inspected; victim frames are < 13 KiB (targets up to 12 KiB) */
-#define MINRUN 8   /* consecutive pattern bytes (consistent phase) that count as surviving secret */
+#define MINRUN 6   /* consecutive pattern bytes (consistent phase) that count as surviving secret. 16 distinct bytes drawn from 255 per
+                    * victim: a chance run of 6 in 32 KiB of other victims' leftovers has probability ~1e-8 per scan. 6 and 7 are the
+                    * unaligned heads/tails a word-wise eraser may treat differently from its body */
 volatile unsigned char c18_magic[16]; /* the only copy of the pattern outside victim buffers; not on the stack */
 volatile unsigned c18_salt, c18_sink;
 static unsigned char region[SCAN];
